@@ -626,3 +626,47 @@ func TrimVectors(bs []*Batch, field string, counts func(batch, doc int) bool, ta
 	}
 	return n == target
 }
+
+// AddBigSynonymDoc appends a synonym-definition document whose term maps to n
+// distinct synonyms in the given thesaurus (n (synonym, document) pairs): pair
+// counts next to 1024 / 2048 / 4096, where bitmap containers and batch sizes switch.
+func AddBigSynonymDoc(b *Batch, id, thes, term string, n int) {
+	p := SynPair{Term: term}
+	for k := 0; k < n; k++ {
+		p.Syns = append(p.Syns, fmt.Sprintf("s%s-%05d", id, k))
+	}
+	b.Docs = append(b.Docs, Doc{ID: id, Syn: []SynField{{Thes: thes, Pairs: []SynPair{p}}}})
+}
+
+// GenMetaSweep: documents whose stored-field records have header (metadata)
+// lengths covering a contiguous range across several multiples of 128 - one
+// more stored value adds a few header bytes, one more array position adds one -
+// and data lengths around 128 / 16384 (varint widths of the record header).
+func GenMetaSweep(rng *rand.Rand, prefix string) *Batch {
+	b := &Batch{}
+	name := FieldPool[rng.Intn(len(FieldPool))]
+	base := 8 + rng.Intn(8)
+	for d := 0; d < 420; d++ {
+		doc := Doc{ID: fmt.Sprintf("%sms%03d", prefix, d), IDLast: d%5 == 0}
+		k := base + d/7
+		for v := 0; v < k; v++ {
+			f := FieldInst{Name: name, Type: typePool[(d+v)%len(typePool)], Stored: true, Value: []byte{byte('a' + v%26)}, AP: []uint64{uint64(v % 100)}, Len: 0}
+			if v == 0 {
+				for e := 0; e < d%7; e++ {
+					f.AP = append(f.AP, uint64(e))
+				}
+				if d%11 == 0 {
+					// data length next to a varint width boundary
+					f.Value = make([]byte, []int{126, 127, 128, 129, 16383, 16384}[(d/11)%6])
+					for i := range f.Value {
+						f.Value[i] = byte(rng.Intn(255))
+					}
+				}
+			}
+			doc.Fields = append(doc.Fields, f)
+		}
+		doc.Fields = append(doc.Fields, FieldInst{Name: name, Type: 't', Len: 1, Toks: []Tok{{Term: "x", Freq: 1}}})
+		b.Docs = append(b.Docs, doc)
+	}
+	return b
+}
